@@ -322,7 +322,8 @@ fn eval_options(tr: Tr, level: Level, occs: &[&Occ], unit_variant: bool, stage: 
                 continue;
             }
         }
-        if level == Level::Variant && o.name == "word" && !unit_variant {
+        // (`word = false` declares nothing, on any variant)
+        if level == Level::Variant && o.name == "word" && o.on && !unit_variant {
             out.push(v("word-on-non-unit-variant", vec![o.range]));
         }
         if repetition_is_error(level, o.name) && first(&seen, o.name).is_some() {
